@@ -35,6 +35,7 @@ type AField struct {
 	Gomacro  string   `json:"gomacro"`
 	Sub      []AField `json:"sub"`
 	Nilable  bool     `json:"nilable"` // Go writes null for the zero value: slices (incl. []byte) and maps, named or not
+	Keywire  string   `json:"keywire"` // map fields: how Go writes the keys: int (decimal string) | string | intenum | strenum | ""
 }
 
 type XStruct struct {
@@ -91,6 +92,20 @@ type workIn struct {
 
 const timeStruct = "struct{wall uint64; ext int64; loc *time.Location}"
 
+// isEnumType: a named basic type of the analysed module with a typed constant in its package.
+func isEnumType(n *types.Named) bool {
+	if n.Obj().Pkg() == nil || !strings.HasPrefix(n.Obj().Pkg().Path(), synth.ModRoot) {
+		return false
+	}
+	sc := n.Obj().Pkg().Scope()
+	for _, name := range sc.Names() {
+		if k, ok := sc.Lookup(name).(*types.Const); ok && k.Type() == n {
+			return true
+		}
+	}
+	return false
+}
+
 func fieldsOf(st *types.Struct, depth int) []AField {
 	out := []AField{}
 	for i := 0; i < st.NumFields(); i++ {
@@ -102,9 +117,27 @@ func fieldsOf(st *types.Struct, depth int) []AField {
 			opts = "," + opts
 		}
 		af := AField{Goname: f.Name(), Exported: f.Exported(), Emb: "no", Tagname: name, Tagopts: opts, Hasjson: has, Gomacro: tag.Get("gomacro"), Sub: []AField{}}
-		switch types.Unalias(f.Type()).Underlying().(type) {
-		case *types.Slice, *types.Map:
+		switch u := types.Unalias(f.Type()).Underlying().(type) {
+		case *types.Slice:
 			af.Nilable = true
+		case *types.Map:
+			af.Nilable = true
+			if kb, ok := u.Key().Underlying().(*types.Basic); ok {
+				isEnum := false
+				if kn, isNamed := types.Unalias(u.Key()).(*types.Named); isNamed {
+					isEnum = isEnumType(kn)
+				}
+				switch {
+				case kb.Info()&types.IsInteger != 0 && isEnum:
+					af.Keywire = "intenum"
+				case kb.Info()&types.IsInteger != 0:
+					af.Keywire = "int"
+				case kb.Info()&types.IsString != 0 && isEnum:
+					af.Keywire = "strenum"
+				case kb.Info()&types.IsString != 0:
+					af.Keywire = "string"
+				}
+			}
 		}
 		if f.Embedded() {
 			if sub, ok := types.Unalias(f.Type()).Underlying().(*types.Struct); ok && f.Type().Underlying().String() != timeStruct && depth < 8 {
